@@ -453,6 +453,18 @@ class ArrInterp(ResultInterp):
             return
         if isinstance(base, AArr):
             self.root.stores.append((node, base, idx, v, base.is_fresh()))
+            if base.content == "zeros" and base.is_fresh() and base.selection is None and isinstance(idx, AMask) and idx.of is not None and idx.kind == "nonzero" and v == 1 and getattr(base, "uninitialised_side", getattr(getattr(base, "uninitialised_like", None), "side", None)) == idx.of.side:
+                # zeros of an input's shape, set to 1 where that input is non-zero: its binarisation
+                # (in a dtype of its own - 0/1 fit every dtype)
+                src = idx.of
+                base.side, base.selection = src.side, src.selection
+                base.content = "bin" if (src.content in ("labels", "bin", "bool") and not src.casts) else f"opaque:binarised {src.content} after narrowing cast {src.casts}" if src.casts else f"opaque:binarised {src.content}"
+                base.casts = []
+                base.empty_unknown = src.empty_unknown
+                base.uninitialised_like = None
+                base.uninitialised_side = None
+                base.values_changed()
+                return
             applies = isinstance(idx, AMask) and idx.masks(base)
             base.values_changed()
             if applies:
@@ -591,6 +603,11 @@ class ArrInterp(ResultInterp):
             return out
         if name in ("numpy.empty", "numpy.zeros") and args and isinstance(args[0], Sym) and args[0].name.endswith(".shape") and isinstance(kwargs.get("dtype", args[1] if len(args) > 1 else None), Sym):
             sh, dt = args[0].name[: -len(".shape")], kwargs.get("dtype", args[1] if len(args) > 1 else None).name
+            if name == "numpy.zeros" and dt != f"dtypeof:{sh}" and self._dtype(kwargs.get("dtype", args[1] if len(args) > 1 else None)) in ("u8", "u16", "u32", "u64", "i64", "bool") and not (set(kwargs) - {"dtype", "order"}):
+                out = AArr(sh, True, "zeros", None)
+                out.uninitialised_side = sh  # shape of that input, all zero, own dtype
+                out.own_dtype = self._dtype(kwargs.get("dtype", args[1] if len(args) > 1 else None))
+                return out
             if dt == f"dtypeof:{sh}" and not (set(kwargs) - {"dtype", "order"}):
                 out = AArr(sh, True, "opaque:uninitialised" if name.endswith("empty") else "zeros", None)
                 out.uninitialised_side = sh  # shape and dtype of that input, no values yet
